@@ -347,6 +347,16 @@ def check_C11(chk, tier, seed):
             else:                 # in one piece, then an idle hour, then nothing more
                 toks += ["H"] + [f"PL {hx(hp)} {hx(n)}" for hp, n in zip(hops, sizes)] + ["U", "T " + hx(3600000)]
             cases.append((line(toks), toks, True))
+    # more than a mebibyte of answers over the life of one connection (five of 300 000 octets, answered out of order; then
+    # small ones): whatever bound a reader has is per message, not per connection
+    hops = [0xb0 + j for j in range(8)]
+    toks = []
+    for hp in hops:
+        toks += [f"R {hx(hp)}", "W"]
+    for j in (2, 0, 4, 1, 3):
+        toks.append(f"PL {hx(hops[j])} {hx(300000)}")
+    toks += [f"P {hx(hops[5])}", f"PL {hx(hops[7])} {hx(70000)}", f"P {hx(hops[6])}"]
+    cases.append((line(toks), toks, True))
     # adversarial peers (safety only): unsolicited, duplicated, wrong-id answers
     for k in range(300 if tier == "quick" else 20000):
         r = rng.fork(f"a{k}")
@@ -432,7 +442,7 @@ def check_C12(chk, tier, seed):
     rng = Rng(seed).fork("C12")
     eng = engine_codec.setup(chk, rng, need_limit=False)
     cases = regress_schedules("C12")
-    kinds = ["eof", "reset", "garbage", "unknownavp"]
+    kinds = ["eof", "reset", "garbage", "unknownavp", "oversized", "short"]
     # 1..4 outstanding x which answers were already delivered x how the stream ends (incl. every cut offset of a partial answer)
     for n in (1, 2, 3, 4):
         hops = [0x20 + i for i in range(n)]
